@@ -72,6 +72,12 @@ func c11() {
 			cc.GCSpray = 1 + (i/6)%3
 			run.Count("children_with_gc_and_allocation_spray_before_the_seccomp_call", 1)
 		}
+		if pl.strace && pl.nnp && (pl.mode == "busy" || pl.mode == "gosched") && i%2 == 0 && i%7 != 5 {
+			// a slow prctl(2): the tracer holds the call back for 20 ms when it returns, so the runtime takes the P away from
+			// the thread; whoever continues the goroutine afterwards must be that same thread
+			cc.StraceInject = append(cc.StraceInject, "-e", "inject=prctl:delay_exit=20000")
+			run.Count("children_with_a_slow_prctl", 1)
+		}
 		desc := fmt.Sprintf("case %d: mode=%s unprivileged=%v NoNewPrivs=%v flags=%#x strace=%v", i, pl.mode, pl.unpriv, pl.nnp, pl.flags, pl.strace)
 		t0 := time.Now()
 		res, err := vlib.RunChild(bin, "nnp", cc, pl.strace, 60*time.Second)
